@@ -14,7 +14,13 @@ What is proved:
     predicate of the finding), the Impl model returns exactly the Spec order;
   * `fires_once_per_row_*` — for INSERT / UPDATE / DELETE, any ordered trigger list and any table, the audit
     trail consists, per affected row in statement order, of the BEFORE triggers in order followed by the
-    AFTER triggers in order — each trigger exactly once per affected row, none for other rows.
+    AFTER triggers in order — each trigger exactly once per affected row, none for other rows;
+  * `insert_old_new_values`, `after_insert_new_is_stored`, `before_insert_new_is_stored`, `update_old_new_values`,
+    `update_old_is_row`, `delete_old_values` — the OLD/NEW values every trigger sees, for written values that the
+    conversion to the column type changes too: NEW of an AFTER trigger is the stored row, what the BEFORE chain
+    leaves (converted) is what is stored, OLD is the row as it was;
+  * `trigger_values_correct_partial` — outside Region `before_insert_new_unconverted` (a BEFORE INSERT trigger
+    looks at a written value that the conversion changes) the Impl model agrees with the Spec.
 -/
 import Gms.Model.Triggers
 import Gms.Generated.C23
@@ -296,7 +302,26 @@ theorem loop_spec (cap : Nat) : ∀ (rest done S : List Trig), S.Perm done →
       exact h2
 
 
-/-! ## Statement level: every trigger of the ordered list runs once per affected row -/
+/-! ## Statement level: every trigger of the ordered list runs once per affected row, and what it sees -/
+
+theorem roundT_cell (n : Int) : roundT (10 * n) = n := by
+  unfold roundT
+  split <;> omega
+
+theorem cell_roundT {x : Int} (h : x % 10 = 0) : 10 * roundT x = x := by
+  unfold roundT
+  split <;> omega
+
+theorem stored_raw (r : Row) : r.raw.stored = r := by
+  cases r
+  simp [Row.raw, RawRow.stored, roundT_cell]
+
+theorem entryRow_integral (early : Bool) {r : RawRow} (h : r.integral = true) : entryRow early r = r := by
+  cases early
+  · rfl
+  · obtain ⟨a, b⟩ := r
+    simp only [RawRow.integral, Bool.and_eq_true, beq_iff_eq] at h
+    simp [entryRow, RawRow.stored, Row.raw, cell_roundT h.1, cell_roundT h.2]
 
 theorem runBefore_names : ∀ (bf : List Trig) (old new : Option Row) (acc : List Audit),
     ((runBefore bf old new acc).2).map (·.n) = acc.map (·.n) ++ bf.map (·.name) := by
@@ -322,56 +347,202 @@ theorem runBefore_some : ∀ (bf : List Trig) (old : Option Row) (r : Row) (acc 
       obtain ⟨r', h1, h2⟩ := ih old { r with b := r.b + k } (acc ++ [auditOf t old (some { r with b := r.b + k })])
       exact ⟨r', h1, h2⟩
 
+/-- The accumulator of `runBefore` is only appended to. -/
+theorem runBefore_acc : ∀ (bf : List Trig) (old new : Option Row) (acc : List Audit),
+    runBefore bf old new acc = ((runBefore bf old new []).1, acc ++ (runBefore bf old new []).2) := by
+  intro bf
+  induction bf with
+  | nil => intro old new acc; simp [runBefore]
+  | cons t ts ih =>
+    intro old new acc
+    simp only [runBefore, List.nil_append]
+    rw [ih _ _ (acc ++ _), ih _ _ [_]]
+    simp
+
+theorem runBeforeRaw_acc : ∀ (bf : List Trig) (new : RawRow) (acc : List Audit),
+    runBeforeRaw bf new acc = ((runBeforeRaw bf new []).1, acc ++ (runBeforeRaw bf new []).2) := by
+  intro bf
+  induction bf with
+  | nil => intro new acc; simp [runBeforeRaw]
+  | cons t ts ih =>
+    intro new acc
+    simp only [runBeforeRaw, List.nil_append]
+    rw [ih _ (acc ++ _), ih _ [_]]
+    simp
+
+theorem runBeforeRaw_names : ∀ (bf : List Trig) (new : RawRow) (acc : List Audit),
+    ((runBeforeRaw bf new acc).2).map (·.n) = acc.map (·.n) ++ bf.map (·.name) := by
+  intro bf
+  induction bf with
+  | nil => intro new acc; simp [runBeforeRaw]
+  | cons t ts ih =>
+    intro new acc
+    simp only [runBeforeRaw, ih, List.map_append, List.map_cons, List.map_nil, auditRaw, List.append_assoc,
+      List.singleton_append]
+
+/-- A BEFORE INSERT chain never changes the key cell. -/
+theorem runBeforeRaw_key : ∀ (bf : List Trig) (new : RawRow) (acc : List Audit),
+    (runBeforeRaw bf new acc).1.a = new.a := by
+  intro bf
+  induction bf with
+  | nil => intro new acc; rfl
+  | cons t ts ih =>
+    intro new acc
+    simp only [runBeforeRaw]
+    rw [ih]
+    cases t.setB <;> rfl
+
+/-- Every record a BEFORE/AFTER chain of an UPDATE or DELETE writes carries the row as it was as OLD. -/
+theorem runBefore_old : ∀ (bf : List Trig) (old new : Option Row) (acc : List Audit),
+    ∀ e ∈ (runBefore bf old new acc).2, e ∈ acc ∨ (e.oa = old.map (10 * ·.a) ∧ e.ob = old.map (10 * ·.b)) := by
+  intro bf
+  induction bf with
+  | nil => intro old new acc e he; exact Or.inl he
+  | cons t ts ih =>
+    intro old new acc e he
+    simp only [runBefore] at he
+    rcases ih _ _ _ e he with h | h
+    · rcases List.mem_append.mp h with h | h
+      · exact Or.inl h
+      · simp only [List.mem_singleton] at h
+        subst h
+        exact Or.inr ⟨rfl, rfl⟩
+    · exact Or.inr h
+
+/-- What the last BEFORE INSERT trigger records as NEW is the row the chain hands on. -/
+theorem runBeforeRaw_last : ∀ (bf : List Trig) (new : RawRow) (acc : List Audit), bf ≠ [] →
+    ∃ e, (runBeforeRaw bf new acc).2.getLast? = some e ∧
+      e.na = some (runBeforeRaw bf new acc).1.a ∧ e.nb = some (runBeforeRaw bf new acc).1.b := by
+  intro bf
+  induction bf with
+  | nil => intro new acc h; exact absurd rfl h
+  | cons t ts ih =>
+    intro new acc _
+    simp only [runBeforeRaw]
+    cases ts with
+    | nil => simp [runBeforeRaw, auditRaw]
+    | cons u us => exact ih _ _ (by simp)
+
 /-- The names fired for one affected row: the BEFORE triggers in order, then the AFTER triggers. -/
 def rowNames (bf af : List Trig) : List TName := bf.map (·.name) ++ af.map (·.name)
 
-theorem insertRows_names (bf af : List Trig) : ∀ (rows : List Row) (au : List Audit) (tbl : List Row) (au' : List Audit) (tbl' : List Row),
-    insertRows bf af rows au tbl = (au', tbl', false) →
-    au'.map (·.n) = au.map (·.n) ++ rows.flatMap (fun _ => rowNames bf af) := by
+/-! ### INSERT: the trace of one row -/
+
+/-- The row an INSERT stores for the written row `r`: what the BEFORE chain leaves, converted to
+the column types. -/
+def insStored (early : Bool) (bf : List Trig) (r : RawRow) : Row :=
+  (runBeforeRaw bf (entryRow early r) []).1.stored
+
+/-- The audit records of one inserted row: the BEFORE chain's records, then one record per AFTER
+trigger whose NEW is *the stored row*. -/
+def insTrace (early : Bool) (bf af : List Trig) (r : RawRow) : List Audit :=
+  (runBeforeRaw bf (entryRow early r) []).2 ++ af.map (fun t => auditOf t none (some (insStored early bf r)))
+
+theorem insTrace_names (early : Bool) (bf af : List Trig) (r : RawRow) :
+    (insTrace early bf af r).map (·.n) = rowNames bf af := by
+  simp [insTrace, rowNames, runBeforeRaw_names, auditOf, Function.comp_def]
+
+theorem insertRows_trace (early : Bool) (bf af : List Trig) : ∀ (rows : List RawRow) (au : List Audit) (tbl : List Row)
+    (au' : List Audit) (tbl' : List Row),
+    insertRows early bf af rows au tbl = (au', tbl', false) →
+    au' = au ++ rows.flatMap (insTrace early bf af) ∧
+    tbl' = rows.foldl (fun t r => insertSorted (insStored early bf r) t) tbl := by
   intro rows
   induction rows with
-  | nil => intro au tbl au' tbl' h; simp only [insertRows, Prod.mk.injEq] at h; simp [← h.1]
+  | nil => intro au tbl au' tbl' h; simp only [insertRows, Prod.mk.injEq] at h; simp [← h.1, ← h.2.1]
   | cons r rows ih =>
     intro au tbl au' tbl' h
     simp only [insertRows] at h
-    obtain ⟨r', hr', _⟩ := runBefore_some bf none r au
-    have hn := runBefore_names bf none (some r) au
-    generalize hrb : runBefore bf none (some r) au = rb at h hr' hn
-    obtain ⟨new, au1⟩ := rb
-    simp only at hr' hn h
-    subst hr'
+    rw [runBeforeRaw_acc] at h
     simp only at h
     split at h
     · simp at h
-    · have := ih _ _ _ _ h
-      rw [this]
-      simp only [runAfter, List.map_append, List.map_map, hn, List.flatMap_cons, rowNames, List.append_assoc]
-      congr 2
+    · obtain ⟨h1, h2⟩ := ih _ _ _ _ h
+      refine ⟨?_, ?_⟩
+      · rw [h1]
+        simp [runAfter, insTrace, insStored, List.append_assoc]
+      · rw [h2]
+        simp [insStored]
 
-theorem deleteRows_names (bf af : List Trig) (lo : Int) : ∀ (tbl : List Row) (au : List Audit),
-    ((deleteRows bf af lo tbl au).1).map (·.n) =
-      au.map (·.n) ++ (tbl.filter (fun r => decide (lo ≤ r.a))).flatMap (fun _ => rowNames bf af) := by
-  intro tbl
-  induction tbl with
-  | nil => intro au; simp [deleteRows]
-  | cons r tbl ih =>
-    intro au
-    simp only [deleteRows]
-    by_cases hlo : lo ≤ r.a
-    · simp only [hlo, if_true, List.filter_cons, decide_true, List.flatMap_cons]
-      rw [ih]
-      have hn := runBefore_names bf (some r) none au
-      simp only [runAfter, List.map_append, List.map_map, hn, rowNames, List.append_assoc]
-      congr 2
-    · simp only [hlo, if_false, List.filter_cons, decide_false]
-      have := ih au
-      generalize deleteRows bf af lo tbl au = res at this ⊢
-      obtain ⟨a1, a2⟩ := res
-      exact this
+theorem mem_insertSorted (r x : Row) : ∀ (l : List Row), x ∈ insertSorted r l ↔ x = r ∨ x ∈ l := by
+  intro l
+  induction l with
+  | nil => simp [insertSorted]
+  | cons y ys ih =>
+    simp only [insertSorted]
+    split
+    · simp
+    · simp only [List.mem_cons, ih]
+      constructor
+      · rintro (h | h | h)
+        · exact Or.inr (Or.inl h)
+        · exact Or.inl h
+        · exact Or.inr (Or.inr h)
+      · rintro (h | h | h)
+        · exact Or.inr (Or.inl h)
+        · exact Or.inl h
+        · exact Or.inr (Or.inr h)
 
-theorem updateRows_names (bf af : List Trig) (k lo : Int) : ∀ (tbl : List Row) (au : List Audit),
-    ((updateRows bf af k lo tbl au).1).map (·.n) =
-      au.map (·.n) ++ (tbl.filter (fun r => decide (lo ≤ r.a))).flatMap (fun _ => rowNames bf af) := by
+theorem mem_foldl_insertSorted (f : RawRow → Row) : ∀ (rows : List RawRow) (tbl : List Row) (x : Row),
+    x ∈ rows.foldl (fun t r => insertSorted (f r) t) tbl ↔ x ∈ tbl ∨ ∃ r ∈ rows, x = f r := by
+  intro rows
+  induction rows with
+  | nil => intro tbl x; simp
+  | cons r rows ih =>
+    intro tbl x
+    simp only [List.foldl_cons, ih, mem_insertSorted, List.mem_cons]
+    constructor
+    · rintro ((h | h) | ⟨r', hr', h⟩)
+      · exact Or.inr ⟨r, Or.inl rfl, h⟩
+      · exact Or.inl h
+      · exact Or.inr ⟨r', Or.inr hr', h⟩
+    · rintro (h | ⟨r', (rfl | hr'), h⟩)
+      · exact Or.inl (Or.inr h)
+      · exact Or.inl (Or.inl h)
+      · exact Or.inr ⟨r', hr', h⟩
+
+/-- Outside Region `before_insert_new_unconverted` the moment of the conversion does not matter. -/
+theorem insertRows_early_irrelevant (bf af : List Trig) : ∀ (rows : List RawRow) (au : List Audit) (tbl : List Row),
+    (bf = [] ∨ ∀ r ∈ rows, r.integral = true) →
+    insertRows false bf af rows au tbl = insertRows true bf af rows au tbl := by
+  intro rows
+  induction rows with
+  | nil => intro au tbl _; rfl
+  | cons r rows ih =>
+    intro au tbl h
+    have hrest : bf = [] ∨ ∀ r ∈ rows, r.integral = true := by
+      rcases h with h | h
+      · exact Or.inl h
+      · exact Or.inr (fun x hx => h x (List.mem_cons_of_mem _ hx))
+    rcases h with h | h
+    · subst h
+      simp only [insertRows, runBeforeRaw, entryRow, Bool.false_eq_true, if_false, if_true, stored_raw]
+      split
+      · rfl
+      · exact ih _ _ hrest
+    · have hr := h r (List.mem_cons_self ..)
+      simp only [insertRows, entryRow_integral _ hr]
+      split
+      · rfl
+      · exact ih _ _ hrest
+
+/-! ### UPDATE / DELETE: the trace of one row -/
+
+/-- The row an UPDATE leaves for `r`: `b + k` converted to the column type, then the BEFORE chain. -/
+def updStored (bf : List Trig) (k : Tenths) (r : Row) : Row :=
+  ((runBefore bf (some r) (some { r with b := roundT (10 * r.b + k) }) []).1).getD r
+
+def updTrace (bf af : List Trig) (k : Tenths) (r : Row) : List Audit :=
+  (runBefore bf (some r) (some { r with b := roundT (10 * r.b + k) }) []).2 ++
+    af.map (fun t => auditOf t (some r) (some (updStored bf k r)))
+
+def delTrace (bf af : List Trig) (r : Row) : List Audit :=
+  (runBefore bf (some r) none []).2 ++ af.map (fun t => auditOf t (some r) none)
+
+theorem updateRows_trace (bf af : List Trig) (k : Tenths) (lo : Int) : ∀ (tbl : List Row) (au : List Audit),
+    updateRows bf af k lo tbl au =
+      (au ++ (tbl.filter (fun r => decide (lo ≤ r.a))).flatMap (updTrace bf af k),
+       tbl.map (fun r => if lo ≤ r.a then updStored bf k r else r)) := by
   intro tbl
   induction tbl with
   | nil => intro au; simp [updateRows]
@@ -379,23 +550,43 @@ theorem updateRows_names (bf af : List Trig) (k lo : Int) : ∀ (tbl : List Row)
     intro au
     simp only [updateRows]
     by_cases hlo : lo ≤ r.a
-    · simp only [hlo, if_true, List.filter_cons, decide_true, List.flatMap_cons]
-      have hn := runBefore_names bf (some r) (some { r with b := r.b + k }) au
-      generalize hrb : runBefore bf (some r) (some { r with b := r.b + k }) au = rb at hn ⊢
-      obtain ⟨new, au1⟩ := rb
-      simp only at hn ⊢
-      have := ih (runAfter af (some r) (some (new.getD r)) au1)
-      generalize updateRows bf af k lo tbl (runAfter af (some r) (some (new.getD r)) au1) = res at this ⊢
-      obtain ⟨a1, a2⟩ := res
-      simp only at this ⊢
-      rw [this]
-      simp only [runAfter, List.map_append, List.map_map, hn, rowNames, List.append_assoc]
-      congr 2
-    · simp only [hlo, if_false, List.filter_cons, decide_false]
-      have := ih au
-      generalize updateRows bf af k lo tbl au = res at this ⊢
-      obtain ⟨a1, a2⟩ := res
-      exact this
+    · simp only [hlo, if_true, List.filter_cons, decide_true, List.flatMap_cons, List.map_cons]
+      rw [runBefore_acc]
+      simp only [ih]
+      simp [runAfter, updTrace, updStored, List.append_assoc]
+    · simp only [hlo, if_false, List.filter_cons, decide_false, List.map_cons, ih]
+      simp
+
+theorem deleteRows_trace (bf af : List Trig) (lo : Int) : ∀ (tbl : List Row) (au : List Audit),
+    deleteRows bf af lo tbl au =
+      (au ++ (tbl.filter (fun r => decide (lo ≤ r.a))).flatMap (delTrace bf af),
+       tbl.filter (fun r => !decide (lo ≤ r.a))) := by
+  intro tbl
+  induction tbl with
+  | nil => intro au; simp [deleteRows]
+  | cons r tbl ih =>
+    intro au
+    simp only [deleteRows]
+    by_cases hlo : lo ≤ r.a
+    · simp only [hlo, if_true, List.filter_cons, decide_true, List.flatMap_cons, Bool.not_true, Bool.false_eq_true, if_false]
+      rw [runBefore_acc]
+      simp only [ih]
+      simp [runAfter, delTrace, List.append_assoc]
+    · simp only [hlo, if_false, List.filter_cons, decide_false, ih]
+      simp
+
+theorem updTrace_names (bf af : List Trig) (k : Tenths) (r : Row) : (updTrace bf af k r).map (·.n) = rowNames bf af := by
+  simp [updTrace, rowNames, runBefore_names, auditOf, Function.comp_def]
+
+theorem delTrace_names (bf af : List Trig) (r : Row) : (delTrace bf af r).map (·.n) = rowNames bf af := by
+  simp [delTrace, rowNames, runBefore_names, auditOf, Function.comp_def]
+
+theorem flatMap_names {α : Type} (f : α → List Audit) (g : List TName) (h : ∀ x, (f x).map (·.n) = g) :
+    ∀ (l : List α), (l.flatMap f).map (·.n) = l.flatMap (fun _ => g) := by
+  intro l
+  induction l with
+  | nil => rfl
+  | cons x xs ih => simp only [List.flatMap_cons, List.map_append, h, ih]
 
 end Gms.Triggers
 
@@ -420,7 +611,19 @@ theorem facts_match :
       "return:append(beforeTriggers,afterTriggers...)"]
     ∧ Gms.Generated.C23.wraps = ["*plan.InsertInto:before=n.Source:after=n", "*plan.Update:before=n.Child:after=n",
       "*plan.DeleteFrom:before=n.Child:after=n"]
-    ∧ Gms.Generated.C23.appendCaps = [0, 1, 2, 4, 4, 8, 8, 8, 8, 16, 16, 16, 16, 16, 16, 16, 16] := by
+    ∧ Gms.Generated.C23.appendCaps = [0, 1, 2, 4, 4, 8, 8, 8, 8, 16, 16, 16, 16, 16, 16, 16, 16]
+    -- row flow: the row insertIter converts in place is the row it stores *and* the row it returns (= NEW of the
+    -- AFTER executors above it); updateIter stores the new half of the row it returns; triggerIter prepends the
+    -- row of its child to the trigger logic and passes that row on
+    ∧ Gms.Generated.C23.insertFlow = ["assign:row,err:=i.rowSource.Next(ctx)", "assign:row[idx]=converted",
+      "assign:row=convertDataAndWarn(ctx,i.schema,row,idx,cErr)", "assign:row[idx]=converted",
+      "store:i.replacer.Insert(ctx,row)", "store:i.inserter.Insert(ctx,row)", "return:row,nil"]
+    ∧ Gms.Generated.C23.updateFlow = ["assign:oldAndNewRow,err:=u.childIter.Next(ctx)",
+      "assign:oldRow,newRow:=oldAndNewRow[:len(oldAndNewRow)/2],oldAndNewRow[len(oldAndNewRow)/2:]",
+      "store:u.updater.Update(ctx,oldRow,newRow)", "return:oldAndNewRow,nil"]
+    ∧ Gms.Generated.C23.triggerFlow = ["assign:childRow,err:=t.child.Next(ctx)",
+      "call:prependRowInPlanForTriggerExecution(ctx,childRow)", "call:t.b.buildNodeExec(ctx,logic,childRow)",
+      "call:shouldUseLogicResult(ctx,logic,logicRow)", "return:childRow,nil"] := by
   decide
 
 /-- The Spec order is a permutation of the triggers: every trigger appears exactly once. -/
@@ -455,39 +658,145 @@ theorem orderTriggers_perm_partial (cap : Nat) (ts o : List Trig) (hw : wellForm
 
 /-- INSERT: per inserted row, the BEFORE triggers in order then the AFTER triggers in order — each
 trigger of the event exactly once per row. -/
-theorem fires_once_per_row_insert (atomic : Bool) (ordered : List Trig) (tbl rows : List Row)
-    (hok : (execDml atomic ordered tbl (.insert rows)).outcome = .ok) :
-    (execDml atomic ordered tbl (.insert rows)).audit.map (·.n) =
+theorem fires_once_per_row_insert (spec : Bool) (ordered : List Trig) (tbl : List Row) (rows : List RawRow)
+    (hok : (execDml spec ordered tbl (.insert rows)).outcome = .ok) :
+    (execDml spec ordered tbl (.insert rows)).audit.map (·.n) =
       rows.flatMap (fun _ => rowNames (befores ordered) (afters ordered)) := by
   simp only [execDml, firingOrder, List.reverse_reverse] at hok ⊢
-  generalize hres : insertRows (befores ordered) (afters ordered) rows [] tbl = res at hok ⊢
+  generalize hres : insertRows spec (befores ordered) (afters ordered) rows [] tbl = res at hok ⊢
   obtain ⟨au, tbl', failed⟩ := res
   cases failed with
   | true => simp at hok
   | false =>
     simp only [Bool.false_eq_true, if_false]
-    have := insertRows_names _ _ rows [] tbl au tbl' hres
-    simpa using this
+    obtain ⟨h1, _⟩ := insertRows_trace _ _ _ rows [] tbl au tbl' hres
+    rw [h1, List.nil_append]
+    exact flatMap_names _ _ (insTrace_names spec _ _) rows
 
-theorem fires_once_per_row_update (atomic : Bool) (ordered : List Trig) (tbl : List Row) (k lo : Int) :
-    (execDml atomic ordered tbl (.update k lo)).audit.map (·.n) =
+theorem fires_once_per_row_update (spec : Bool) (ordered : List Trig) (tbl : List Row) (k : Tenths) (lo : Int) :
+    (execDml spec ordered tbl (.update k lo)).audit.map (·.n) =
       (tbl.filter (fun r => decide (lo ≤ r.a))).flatMap (fun _ => rowNames (befores ordered) (afters ordered)) := by
-  simp only [execDml, firingOrder, List.reverse_reverse]
-  have := updateRows_names (befores ordered) (afters ordered) k lo tbl []
-  generalize updateRows (befores ordered) (afters ordered) k lo tbl [] = res at this ⊢
-  obtain ⟨a1, a2⟩ := res
-  simpa using this
+  simp only [execDml, firingOrder, List.reverse_reverse, updateRows_trace, List.nil_append]
+  exact flatMap_names _ _ (updTrace_names _ _ k) _
 
-theorem fires_once_per_row_delete (atomic : Bool) (ordered : List Trig) (tbl : List Row) (lo : Int) :
-    (execDml atomic ordered tbl (.delete lo)).audit.map (·.n) =
+theorem fires_once_per_row_delete (spec : Bool) (ordered : List Trig) (tbl : List Row) (lo : Int) :
+    (execDml spec ordered tbl (.delete lo)).audit.map (·.n) =
       (tbl.filter (fun r => decide (lo ≤ r.a))).flatMap (fun _ => rowNames (befores ordered) (afters ordered)) := by
-  simp only [execDml, firingOrder, List.reverse_reverse]
-  have := deleteRows_names (befores ordered) (afters ordered) lo tbl []
-  generalize deleteRows (befores ordered) (afters ordered) lo tbl [] = res at this ⊢
-  obtain ⟨a1, a2⟩ := res
-  simpa using this
+  simp only [execDml, firingOrder, List.reverse_reverse, deleteRows_trace, List.nil_append]
+  exact flatMap_names _ _ (delTrace_names _ _) _
 
-/-- The row a BEFORE INSERT chain hands to the storage layer is the inserted row with every
+/-- **OLD/NEW values of an INSERT.** A successful INSERT writes, per row as written and in statement
+order, the BEFORE chain's records followed by one record per AFTER trigger whose NEW is the *stored*
+row `insStored` (= what the BEFORE chain leaves, converted to the column types); the table gains
+exactly those stored rows. Holds for the Spec and for the Impl model (any moment of conversion). -/
+theorem insert_old_new_values (spec : Bool) (ordered : List Trig) (tbl : List Row) (rows : List RawRow)
+    (hok : (execDml spec ordered tbl (.insert rows)).outcome = .ok) :
+    (execDml spec ordered tbl (.insert rows)).audit = rows.flatMap (insTrace spec (befores ordered) (afters ordered)) ∧
+    (execDml spec ordered tbl (.insert rows)).table =
+      rows.foldl (fun t r => insertSorted (insStored spec (befores ordered) r) t) tbl := by
+  simp only [execDml, firingOrder, List.reverse_reverse] at hok ⊢
+  generalize hres : insertRows spec (befores ordered) (afters ordered) rows [] tbl = res at hok ⊢
+  obtain ⟨au, tbl', failed⟩ := res
+  cases failed with
+  | true => simp at hok
+  | false =>
+    simp only [Bool.false_eq_true, if_false]
+    obtain ⟨h1, h2⟩ := insertRows_trace _ _ _ rows [] tbl au tbl' hres
+    exact ⟨by simpa using h1, h2⟩
+
+/-- **NEW of an AFTER INSERT trigger is a row of the table.** Every record an AFTER trigger writes
+for a written row `r` shows, cell for cell, the row `insStored … r`, and that row is in the table
+when the statement has succeeded — an AFTER trigger never sees a value that was not stored. -/
+theorem after_insert_new_is_stored (spec : Bool) (ordered : List Trig) (tbl : List Row) (rows : List RawRow)
+    (hok : (execDml spec ordered tbl (.insert rows)).outcome = .ok) (r : RawRow) (hr : r ∈ rows) :
+    insStored spec (befores ordered) r ∈ (execDml spec ordered tbl (.insert rows)).table ∧
+    ∀ e ∈ (afters ordered).map (fun t => auditOf t none (some (insStored spec (befores ordered) r))),
+      e.oa = none ∧ e.ob = none ∧
+      e.na = some (10 * (insStored spec (befores ordered) r).a) ∧ e.nb = some (10 * (insStored spec (befores ordered) r).b) := by
+  refine ⟨?_, ?_⟩
+  · rw [(insert_old_new_values spec ordered tbl rows hok).2, mem_foldl_insertSorted]
+    exact Or.inr ⟨r, hr, rfl⟩
+  · intro e he
+    simp only [List.mem_map] at he
+    obtain ⟨t, _, rfl⟩ := he
+    simp [auditOf]
+
+/-- **What a BEFORE INSERT chain leaves in NEW is what gets stored**: the last BEFORE trigger's
+record shows the row whose conversion to the column types is `insStored`, and the key cell is the
+one that entered the chain. -/
+theorem before_insert_new_is_stored (early : Bool) (bf : List Trig) (r : RawRow) (hbf : bf ≠ []) :
+    ∃ (e : Audit) (new : RawRow), (runBeforeRaw bf (entryRow early r) []).2.getLast? = some e ∧ e.na = some new.a ∧ e.nb = some new.b ∧
+      new.stored = insStored early bf r ∧ new.a = (entryRow early r).a := by
+  obtain ⟨e, h1, h2, h3⟩ := runBeforeRaw_last bf (entryRow early r) [] hbf
+  exact ⟨e, (runBeforeRaw bf (entryRow early r) []).1, h1, h2, h3, rfl, runBeforeRaw_key _ _ _⟩
+
+/-- **OLD/NEW values of an UPDATE**: per affected row in table order, the BEFORE chain's records then
+one record per AFTER trigger with OLD = the row as it was and NEW = the row as it is stored; the
+table holds `updStored` for every affected row and the other rows unchanged. -/
+theorem update_old_new_values (spec : Bool) (ordered : List Trig) (tbl : List Row) (k : Tenths) (lo : Int) :
+    (execDml spec ordered tbl (.update k lo)).audit =
+      (tbl.filter (fun r => decide (lo ≤ r.a))).flatMap (updTrace (befores ordered) (afters ordered) k) ∧
+    (execDml spec ordered tbl (.update k lo)).table =
+      tbl.map (fun r => if lo ≤ r.a then updStored (befores ordered) k r else r) := by
+  simp [execDml, firingOrder, updateRows_trace]
+
+/-- Every record of an UPDATE row trace carries the row as it was as OLD. -/
+theorem update_old_is_row (bf af : List Trig) (k : Tenths) (r : Row) :
+    ∀ e ∈ updTrace bf af k r, e.oa = some (10 * r.a) ∧ e.ob = some (10 * r.b) := by
+  intro e he
+  simp only [updTrace, List.mem_append, List.mem_map] at he
+  rcases he with he | ⟨t, _, rfl⟩
+  · rcases runBefore_old _ _ _ _ e he with h | h
+    · cases h
+    · simpa using h
+  · simp [auditOf]
+
+/-- **OLD values of a DELETE**: per deleted row, BEFORE then AFTER records with OLD = the deleted row
+and no NEW; exactly the rows outside the WHERE clause stay. -/
+theorem delete_old_values (spec : Bool) (ordered : List Trig) (tbl : List Row) (lo : Int) :
+    (execDml spec ordered tbl (.delete lo)).audit =
+      (tbl.filter (fun r => decide (lo ≤ r.a))).flatMap (delTrace (befores ordered) (afters ordered)) ∧
+    (execDml spec ordered tbl (.delete lo)).table = tbl.filter (fun r => !decide (lo ≤ r.a)) ∧
+    ∀ r, ∀ e ∈ delTrace (befores ordered) (afters ordered) r, e.oa = some (10 * r.a) ∧ e.ob = some (10 * r.b) := by
+  refine ⟨by simp [execDml, firingOrder, deleteRows_trace], by simp [execDml, firingOrder, deleteRows_trace], ?_⟩
+  intro r e he
+  simp only [delTrace, List.mem_append, List.mem_map] at he
+  rcases he with he | ⟨t, _, rfl⟩
+  · rcases runBefore_old _ _ _ _ e he with h | h
+    · cases h
+    · simpa using h
+  · simp [auditOf]
+
+/- Full statement (false on the unchanged tree, see `finding_before_insert_new_unconverted`):
+     ∀ ordered tbl d, (execDml false ordered tbl d) and (execDml true ordered tbl d) agree on outcome, table and —
+     when the statement succeeds — on every OLD/NEW value the triggers see.
+   Proved with the guard `unconvertedSeen ordered d = false`: -/
+/-- **The values triggers see are the Spec's, outside Region `before_insert_new_unconverted`**: if no
+BEFORE trigger looks at an inserted value that the conversion to the column type changes, the Impl
+model and the Spec agree on outcome and table, and on the whole audit trail of a successful
+statement (a failing one differs by Region `failed_statement_keeps_trigger_effects` only). -/
+theorem trigger_values_correct_partial (ordered : List Trig) (tbl : List Row) (d : Dml)
+    (hr : unconvertedSeen ordered d = false) :
+    (execDml false ordered tbl d).outcome = (execDml true ordered tbl d).outcome ∧
+    (execDml false ordered tbl d).table = (execDml true ordered tbl d).table ∧
+    ((execDml true ordered tbl d).outcome = .ok → (execDml false ordered tbl d).audit = (execDml true ordered tbl d).audit) := by
+  cases d with
+  | insert rows =>
+    have hg : befores ordered = [] ∨ ∀ r ∈ rows, r.integral = true := by
+      simp only [unconvertedSeen, Bool.and_eq_false_iff, Bool.not_eq_false', List.isEmpty_iff, List.any_eq_false,
+        Bool.not_eq_true', Bool.not_eq_false] at hr
+      rcases hr with h | h
+      · exact Or.inl h
+      · exact Or.inr (fun r hx => by simpa using h r hx)
+    simp only [execDml, firingOrder, List.reverse_reverse]
+    rw [insertRows_early_irrelevant _ _ rows [] tbl hg]
+    generalize insertRows true (befores ordered) (afters ordered) rows [] tbl = res
+    obtain ⟨au, tbl', failed⟩ := res
+    cases failed <;> simp
+  | update k lo => simp [execDml]
+  | delete lo => simp [execDml]
+
+/-- The row a BEFORE UPDATE chain hands to the storage layer is the updated row with every
 `SET NEW.b = NEW.b + k` applied, and it keeps its key. -/
 theorem before_new_keeps_key (bf : List Trig) (old : Option Row) (r : Row) (acc : List Audit) :
     ∃ r', (runBefore bf old (some r) acc).1 = some r' ∧ r'.a = r.a := runBefore_some bf old r acc
@@ -505,6 +814,18 @@ example : let ts := [bt 1, bt 2, bt 3 (some (.precedes, 1)), bt 4 (some (.follow
   decide
 
 example : (execDml true [bt 1, atr 2] [⟨1, 10⟩, ⟨2, 20⟩] (.delete 2)).audit.map (·.n) = [1, 2] := by decide
+
+/-- `INSERT INTO t VALUES (1, 2.6), (3.4, -0.5)` with one AFTER trigger: it sees (1,3) and (3,-1), the stored
+rows, in the Impl model as in the Spec (the guard of `trigger_values_correct_partial` holds: no BEFORE trigger). -/
+example : unconvertedSeen [atr 1] (.insert [⟨10, 26⟩, ⟨34, -5⟩]) = false ∧
+    (execDml false [atr 1] [] (.insert [⟨10, 26⟩, ⟨34, -5⟩])).outcome = .ok ∧
+    (execDml false [atr 1] [] (.insert [⟨10, 26⟩, ⟨34, -5⟩])).audit =
+      [⟨1, none, none, some 10, some 30⟩, ⟨1, none, none, some 30, some (-10)⟩] ∧
+    (execDml false [atr 1] [] (.insert [⟨10, 26⟩, ⟨34, -5⟩])).table = [⟨1, 3⟩, ⟨3, -1⟩] := by decide
+
+/-- `UPDATE t SET b = b + 1.6`: BEFORE and AFTER triggers see the converted value 12 (= round 11.6). -/
+example : (execDml false [bt 1, atr 2] [⟨1, 10⟩] (.update 16 0)).audit =
+    [⟨1, some 10, some 100, some 10, some 120⟩, ⟨2, some 10, some 100, some 10, some 120⟩] := by decide
 
 /-! ### Findings on the unchanged tree -/
 
@@ -535,9 +856,18 @@ theorem finding_order_panics :
 backend: no savepoints), while the table itself is unchanged. -/
 theorem finding_failed_statement_keeps_trigger_effects :
     let ts := [{ bt 1 with setB := some 1 }, atr 2]
-    (stmtImpl 2 ts [⟨1, 10⟩] (.insert [⟨5, 50⟩, ⟨1, 1⟩, ⟨6, 60⟩])).outcome = .dupKey ∧
-    (stmtImpl 2 ts [⟨1, 10⟩] (.insert [⟨5, 50⟩, ⟨1, 1⟩, ⟨6, 60⟩])).audit.map (·.n) = [1, 2, 1] ∧
-    (stmtSpec ts [⟨1, 10⟩] (.insert [⟨5, 50⟩, ⟨1, 1⟩, ⟨6, 60⟩])).map (·.audit) = some [] := by
+    (stmtImpl 2 ts [⟨1, 10⟩] (.insert [⟨50, 500⟩, ⟨10, 10⟩, ⟨60, 600⟩])).outcome = .dupKey ∧
+    (stmtImpl 2 ts [⟨1, 10⟩] (.insert [⟨50, 500⟩, ⟨10, 10⟩, ⟨60, 600⟩])).audit.map (·.n) = [1, 2, 1] ∧
+    (stmtSpec ts [⟨1, 10⟩] (.insert [⟨50, 500⟩, ⟨10, 10⟩, ⟨60, 600⟩])).map (·.audit) = some [] := by
+  decide
+
+/-- `INSERT INTO t VALUES (1, 2.6)` with one BEFORE INSERT trigger: the trigger sees NEW.b = 2.6 (the value
+as written; `insertIter` converts it only afterwards), MySQL shows it 3 — the stored value. -/
+theorem finding_before_insert_new_unconverted :
+    unconvertedSeen [bt 1] (.insert [⟨10, 26⟩]) = true ∧
+    (execDml false [bt 1] [] (.insert [⟨10, 26⟩])).audit = [⟨1, none, none, some 10, some 26⟩] ∧
+    (execDml true [bt 1] [] (.insert [⟨10, 26⟩])).audit = [⟨1, none, none, some 10, some 30⟩] ∧
+    (execDml false [bt 1] [] (.insert [⟨10, 26⟩])).table = [⟨1, 3⟩] := by
   decide
 
 end Gms.C23
